@@ -390,8 +390,8 @@ theorem loadLatestOrCreateIntermediateKey_ok {ρ : RevCtx} {x : Ctx} {t : Int} {
         simp only []
         have hpz : p.created ≠ 0 := (h.sto.nz r0 hm0).2 p hpar
         apply Wp.bind; apply Wp.tryM
-        apply Wp.mono (getOrLoadSystemKey_wp x p hpz w1 h1)
-        intro r w2 ⟨h2, hms2, hk2⟩
+        apply Wp.mono (Wp.and_ext (getOrLoadSystemKey_ext x p) (getOrLoadSystemKey_wp x p hpz w1 h1))
+        intro r w2 ⟨⟨h2, hms2, hk2⟩, hext2⟩
         simp only []
         have hms02 : MSame w w2 := RT.trans hl.msame hms2
         cases r with
@@ -424,8 +424,8 @@ theorem loadLatestOrCreateIntermediateKey_ok {ρ : RevCtx} {x : Ctx} {t : Int} {
               cases hk
               have hmem3 : r0 ∈ w3.store := by
                 apply hext3.store
-                have := (getOrLoadSystemKey_ext x p w1)
-                sorry
+                apply hext2.store
+                rw [hst]; exact hm0
               rw [keyAt_of_get hso] at hvalid2
               unfold isKeyInvalid at hvalid2
               have hv2 : so.revoked = false ∧ isExpired t so.created x.pol.expireAfter = false := by
@@ -441,5 +441,43 @@ theorem loadLatestOrCreateIntermediateKey_ok {ρ : RevCtx} {x : Ctx} {t : Int} {
               · intro τ m0 hρ hm
                 have := (h3.sto.rev τ m0 hρ).2 r0 hmem3 (by rw [hm]; exact hk0) (by rw [hm])
                 rw [hv.2] at this; cases this
+
+/-- the loader of `DecryptDataRowRecord`. -/
+theorem loadIntermediateKey_ok {ρ : RevCtx} {D : List Row → Prop} {t : Int} (x : Ctx) (p : KeyMeta) (b : Bool) :
+    LoaderOK ρ D t (fun _ _ _ => True) (fun m => loadIntermediateKey x m b) p := by
+  intro w h
+  show Wp (loadIntermediateKey x p b) w _
+  unfold loadIntermediateKey
+  apply Wp.bind
+  apply Wp.mono (msLoad_wp p w h.faults)
+  intro r w1 ⟨hr, hl⟩
+  subst hr
+  simp only []
+  have h1 := h.logOnly hl
+  have hst : w1.store = w.store := by obtain ⟨l, rfl⟩ := hl; rfl
+  cases hf : findRow w.store p with
+  | none => exact ⟨h1, hl.msame, fun k hk => by cases hk⟩
+  | some r0 =>
+    simp only []
+    obtain ⟨hmem, hk, hc⟩ := findRow_some hf
+    cases hpar : r0.parent with
+    | none => exact ⟨h1, hl.msame, fun k hk => by cases hk⟩
+    | some sp =>
+      simp only []
+      apply Wp.bind
+      apply Wp.mono (Wp.and_ext (getOrLoadSystemKey_ext x sp) (getOrLoadSystemKey_st x sp w1 h1))
+      intro r w2 ⟨⟨h2, hms2⟩, hext2⟩
+      have hms02 : MSame w w2 := RT.trans hl.msame hms2
+      cases r with
+      | error e => exact ⟨h2, hms02, fun k hk => by cases hk⟩
+      | ok sk =>
+        simp only []
+        apply Wp.finallyDo
+        apply Wp.mono (Wp.and_ext (intermediateKeyFromEKR_ext x sk r0 b) (intermediateKeyFromEKR_wp x sk r0 b w2 h2))
+        intro r w3 ⟨⟨h3, hms3, hn⟩, hext3⟩
+        have hq : QES w3 (keyRelease sk w3).2 := ⟨keyRelease_ext _ _, keyRelease_q0 _ _, keyRelease_ss _ _⟩
+        refine ⟨h3.qes hq, RT.trans hms02 (RT.trans hms3 hq.q.msame), fun k hk' => ?_⟩
+        have hmem3 : r0 ∈ w3.store := hext3.store r0 (hext2.store r0 (by rw [hst]; exact hmem))
+        exact (loaded_of_newKey h3 (hn k hk') hmem3 hk trivial (fun _ => hc)).qes (fun _ _ _ _ h _ => h) hq
 
 end AsherahVerif.Env
